@@ -285,21 +285,21 @@ class PrimaiteGame:
 
             # TODO: handle simulation defaults more cleanly
             if "node_start_up_duration" in defaults_config:
-                new_node.config.start_up_duration = defaults_config["node_start_up_duration"]
+                new_node.config.start_up_duration = int(defaults_config["node_start_up_duration"])
             if "node_shut_down_duration" in defaults_config:
-                new_node.config.shut_down_duration = defaults_config["node_shut_down_duration"]
+                new_node.config.shut_down_duration = int(defaults_config["node_shut_down_duration"])
             if "node_scan_duration" in defaults_config:
-                new_node.config.node_scan_duration = defaults_config["node_scan_duration"]
+                new_node.config.node_scan_duration = int(defaults_config["node_scan_duration"])
             if "folder_scan_duration" in defaults_config:
-                new_node.file_system._default_folder_scan_duration = defaults_config["folder_scan_duration"]
+                new_node.file_system._default_folder_scan_duration = int(defaults_config["folder_scan_duration"])
             if "folder_restore_duration" in defaults_config:
-                new_node.file_system._default_folder_restore_duration = defaults_config["folder_restore_duration"]
+                new_node.file_system._default_folder_restore_duration = int(defaults_config["folder_restore_duration"])
             # the node's folders exist by now (root and the ones the scenario lists): the defaults are theirs as well
             for folder in new_node.file_system.folders.values():
                 if "folder_scan_duration" in defaults_config:
-                    folder.scan_duration = defaults_config["folder_scan_duration"]
+                    folder.scan_duration = int(defaults_config["folder_scan_duration"])
                 if "folder_restore_duration" in defaults_config:
-                    folder.restore_duration = defaults_config["folder_restore_duration"]
+                    folder.restore_duration = int(defaults_config["folder_restore_duration"])
 
             if "users" in node_cfg and new_node.software_manager.software.get("user-manager"):
                 user_manager: UserManager = new_node.software_manager.software["user-manager"]  # noqa
@@ -351,11 +351,11 @@ class PrimaiteGame:
 
                     # TODO: handle simulation defaults more cleanly
                     if "service_fix_duration" in defaults_config and "fixing_duration" not in service_cfg.get("options", {}):
-                        new_service.config.fixing_duration = defaults_config["service_fix_duration"]
+                        new_service.config.fixing_duration = int(defaults_config["service_fix_duration"])
                     if "service_restart_duration" in defaults_config:
-                        new_service.restart_duration = defaults_config["service_restart_duration"]
+                        new_service.restart_duration = int(defaults_config["service_restart_duration"])
                     if "service_install_duration" in defaults_config:
-                        new_service.install_duration = defaults_config["service_install_duration"]
+                        new_service.install_duration = int(defaults_config["service_install_duration"])
 
             if "applications" in node_cfg:
                 for application_cfg in node_cfg["applications"]:
